@@ -18,15 +18,15 @@ _spec2 = importlib.util.spec_from_file_location("units_c02_for_c05", os.path.joi
 _c02 = importlib.util.module_from_spec(_spec2)
 _spec2.loader.exec_module(_c02)
 for _u in _c02.UNITS:
-    if ".insert@" in _u["name"] or ".remove@" in _u["name"] or _u["name"].endswith(".layout"):
+    if ".insert@" in _u["name"] or ".remove@" in _u["name"] or _u["name"].endswith(".layout") or _u["name"].endswith(".swap"):
         _d = dict(_u)
         _d["prop"] = "C05"
         UNITS.append(_d)
 TRUSTED = _c03.TRUSTED + _c02.TRUSTED
 ASSUMPTIONS = [
-    "List, HashMap, HashSet and PoolMap are covered (insert / remove step contracts; HashMap/HashSet insert relative to bucket chains of <= 2 nodes). "
-    "Map, MultiMap and PoolList have no step contracts: for them C05 is not decided; swap of the hash containers is not covered",
+    "List, HashMap, HashSet and PoolMap are covered (insert / remove / swap step contracts; HashMap/HashSet insert relative to bucket chains of <= 2 nodes). "
+    "Map, MultiMap and PoolList have no step contracts: for them C05 is not decided; swap of the hash containers is covered for two distinct tables",
     "history statement = induction over operations: no operation's frame contains the payload or the address of an element other than the one inserted / removed",
     "iterators are plain node pointers (List::Iterator::item), so iterator validity is node address stability",
 ]
-EXPLANATION = "Address stability of List / HashMap / HashSet elements follows from the frames (assigns clauses) of the step contracts of insert, remove (and List::swap), discharged by DFCC for symbolic neighbourhoods: no frame contains the key/value or the address of another element."
+EXPLANATION = "Address stability of List / HashMap / HashSet elements follows from the frames (assigns clauses) of the step contracts of insert, remove and swap, discharged by DFCC for symbolic neighbourhoods: no frame contains the key/value or the address of another element."
